@@ -1,6 +1,7 @@
 """C14 — the nested list-of-dicts form round-trips and mirrors the tree."""
 from __future__ import annotations
 
+import copy
 import dataclasses
 import itertools
 import json
@@ -168,7 +169,7 @@ def dec(j, U):
     raise ValueError(j)
 
 
-SM_KINDS = ["none", "set", "wrap", "new", "newdrop", "extra"]
+SM_KINDS = ["none", "set", "wrap", "new", "newdrop", "extra", "guid"]
 
 
 def make_ser(kind, U):
@@ -184,6 +185,13 @@ def make_ser(kind, U):
         return ser
     if kind == "extra":   # the style of the pinned suite: leave "data", add entries, return the dict
         def ser(node, data):
+            data["t"] = enc(node.data, U)
+            return data
+        return ser
+    if kind == "guid":   # the id is kept under an application key; the deserialize mapper restores item["data_id"]
+        def ser(node, data):
+            if "data_id" in data:
+                data["g"] = data.pop("data_id")
             data["t"] = enc(node.data, U)
             return data
         return ser
@@ -203,21 +211,54 @@ def payload(kind, v):
 
 
 def decode_item(kind, item, U):
-    """the data object the deserialisation step builds for an item dict"""
+    """the data object the deserialisation step builds for an item dict (read-only version, for the reference)"""
     if kind == "none":
         return item["data"]
-    if kind == "extra":
+    if kind in ("extra", "guid"):
         return dec(item["t"], U)
     return dec(payload(kind, item["data"]), U)
+
+
+def item_id(kind, item):
+    """the data_id entry the item has once the deserialize mapper ran"""
+    return item.get("g") if kind == "guid" else item.get("data_id")
 
 
 def make_deser(kind, U):
     if kind == "none":
         return None
+    if kind == "extra":    # a mapper that consumes (pops) the entry it reads
+        def deser(parent, item):
+            return dec(item.pop("t"), U)
+        return deser
+    if kind == "guid":     # ... and restores the data_id the serialize mapper moved away
+        def deser(parent, item):
+            o = dec(item.pop("t"), U)
+            if "g" in item:
+                item["data_id"] = item.pop("g")
+            return o
+        return deser
 
     def deser(parent, item):
         return decode_item(kind, item, U)
     return deser
+
+
+def after_mapper(kind, wire):
+    """the caller's structure as from_dict may leave it: only what the deserialize mapper itself does to an item"""
+    def go(l):
+        out = []
+        for it in l:
+            d = dict(it)
+            if kind in ("extra", "guid"):
+                d.pop("t", None)
+            if kind == "guid" and "g" in d:
+                d["data_id"] = d.pop("g")
+            if "children" in d and isinstance(d["children"], list):
+                d["children"] = go(d["children"])
+            out.append(d)
+        return out
+    return go(wire)
 
 
 def coq_smd(kind, U, tree_nodes):
@@ -235,6 +276,8 @@ def coq_smd(kind, U, tree_nodes):
         return f"(SMwrap {tbl})"
     if kind == "extra":
         return f"(SMextra {tbl})"
+    if kind == "guid":
+        return f"(SMguid {tbl})"
     return f"(SMnew {tbl} {H.coq_bool(kind == 'new')})"
 
 
@@ -300,7 +343,7 @@ def coq_dtable(obj, kind, U) -> str:
     object (raw value or decoded), abstracted; or the error class of hashing it"""
     rows = {}
     for it in item_dicts(obj):
-        if kind == "extra":   # keyed by the item's own entries
+        if kind in ("extra", "guid"):   # keyed by the item's own entries
             v = {k: x for k, x in it.items() if k != "children"}
         elif "data" not in it:
             continue
@@ -395,9 +438,10 @@ class Prop:
     rule = ("plain trees: every ordered forest with <= 3 nodes x every labeling over 2 strings x data_id in {default, 0, '', 'k', "
             "hash(data)} that the tree accepts (quick: 3-node forests with {default, 0} only); every forest with <= N nodes (N=5 "
             "quick, 6 thorough) x 8 labeling patterns (distinct strings; strings JSON must escape; unhashable dicts/dataclasses under explicit ids; clones in different parents; explicit/falsy/default-valued ids; "
-            "value-equal objects, tuples, ints, dataclasses; identity-hashed objects; '7' next to 7) x the 6 serialisation mappers (none / "
-            "set data in place / wrap / new dict keeping or dropping data_id / extra entry read back by the decoder) with the inverse deserialisation mapper (at N nodes: 1 (quick) or 2 "
-            "of the 6 mappers per tree); trees under a calc_data_id hook; typed trees; emptied trees (clear, remove of the last top "
+            "value-equal objects, tuples, ints, dataclasses; identity-hashed objects; '7' next to 7) x the 7 serialisation mappers (none / "
+            "set data in place / wrap / new dict keeping or dropping data_id / extra entry popped by the decoder / data_id moved to "
+            "another key and restored into item['data_id'] by the deserialize mapper) with the inverse deserialisation mapper (at N nodes: 1 (quick) or 2 "
+            "of the 7 mappers per tree); trees under a calc_data_id hook; typed trees; emptied trees (clear, remove of the last top "
             "node); trees reached through mutation histories (remove, remove(keep_children), remove_children, move_to, filter, add, "
             "clear + re-add: every single operation on every node of every forest <= 3 nodes, pairs on 4 nodes, random histories); seeded random trees (5..18 nodes quick, 5..30 thorough); 47 hand-written + 150 (thorough 800) random dict lists (missing/unhashable data, bad data_id / node_id / children entries, non-dict items); Node.from_dict "
             "into every node of every forest <= 3 (thorough 4) nodes x 3 calc_data_id hooks x 6 item lists.  Every dump goes through "
@@ -405,7 +449,7 @@ class Prop:
     exhaustive_note = ("all shapes <= 3 nodes x all labelings (2 strings x 5 data_id choices; quick: 2 choices at 3 nodes); "
                        "all shapes <= N nodes x 8 patterns x mappers (N=5 quick, 6 thorough)")
     assumptions = [
-        "serialisation mappers are functions of the node's data object/ids and the dict passed in; deserialisation mappers are functions of the item dict (any entry) and do not mutate it",
+        "serialisation mappers are functions of the node's data object/ids and the dict passed in; deserialisation mappers are functions of the item dict (any entry) and may add/change/pop entries other than 'children'",
         "the mapper pair is inverse: deser(ser(x)) == x (hence equal hash) – hypothesis of the round-trip theorem, not an axiom",
         "str(data) == f'{data}' (node.name) for the data objects used",
         "hash() never returns -1 (CPython): the model encodes 'hash(data) raises TypeError' as i_hash = -1",
@@ -477,9 +521,9 @@ class Prop:
                     if n <= (4 if tier == "quick" else 5):
                         kinds = SM_KINDS
                     elif tier == "quick":
-                        kinds = [SM_KINDS[(pi + si) % 6]]
+                        kinds = [SM_KINDS[(pi + si) % 7]]
                     else:
-                        kinds = [SM_KINDS[(pi + si) % 5 + 1], "none"]
+                        kinds = [SM_KINDS[(pi + si) % 6 + 1], "none"]
                     for sm in kinds:
                         d = dict(univ=univ, nodes=nodes, sm=sm)
                         if ok(d):
@@ -557,7 +601,7 @@ class Prop:
                     hist.append([op, rng.randrange(8)])
             if rng.random() < 0.1:
                 hist.insert(rng.randrange(len(hist) + 1), ["clear_readd", "again"])
-            d = hist_desc(shape, n, hist, sm=rng.choice(["none", "none", "set", "extra"]))
+            d = hist_desc(shape, n, hist, sm=rng.choice(["none", "none", "set", "extra", "guid"]))
             if ok(d):
                 yield d
         # (4) random
@@ -678,8 +722,14 @@ class Prop:
             wire = dump
             fail = f"json: structure is not JSON-serialisable ({type(e).__name__})"
         dt = coq_dtable(wire, kind, U)
+        wire0 = copy.deepcopy(wire)
         nxt = H.alloc_count()
         rebuilt = call(lambda: Tree.from_dict(wire, mapper=deser))
+        if not fail and not is_err(rebuilt):
+            # from_dict must not modify the caller's structure (beyond what the caller's own mapper does to an item)
+            if jv_sx(wire) != jv_sx(after_mapper(kind, wire0)):
+                fail = "snapshot: from_dict modified the structure it was given"
+        wire = wire0
         obs = [[jv_sx(d) for d in dump], [jv_sx(d) for d in sub_dumps], obs_rebuilt(rebuilt, U)]
         coq_input = f"(CRound {finput} {smd} {H.coq_list(H.z(H.nid(n)) for n in subs)} {dt} {nxt})"
         fail = fail or self.oracle(tree, U, kind, dump, subs, sub_dumps, wire, rebuilt)
@@ -791,7 +841,7 @@ class Prop:
     # ------------------------------------------------------------------
     @staticmethod
     def expected_data(kind, n, U):
-        if kind in ("none", "extra"):
+        if kind in ("none", "extra", "guid"):
             return str(n._data)
         if kind == "wrap":
             return [str(n._data), enc(n._data, U)]
@@ -814,10 +864,11 @@ class Prop:
                 keys = {"data"}
                 if kind in ("new", "newdrop"):
                     keys.add("x")
-                if kind == "extra":
+                if kind in ("extra", "guid"):
                     keys.add("t")
+                idkey = "g" if kind == "guid" else "data_id"
                 if custom and kind != "newdrop":
-                    keys.add("data_id")
+                    keys.add(idkey)
                 if n._children:
                     keys.add("children")
                 if set(d.keys()) != keys:
@@ -825,8 +876,8 @@ class Prop:
                 exp = self.expected_data(kind, n, U)
                 if jv_sx(d["data"]) != jv_sx(exp):
                     return f"mirror data: {w}: {d['data']!r} expected {exp!r}"
-                if "data_id" in keys and (d["data_id"] != n._data_id or type(d["data_id"]) is not type(n._data_id)):
-                    return f"mirror data_id: {w}: {d['data_id']!r} expected {n._data_id!r}"
+                if idkey in keys and (d[idkey] != n._data_id or type(d[idkey]) is not type(n._data_id)):
+                    return f"mirror data_id: {w}: {d[idkey]!r} expected {n._data_id!r}"
                 if n._children:
                     r = mirror(n._children, d["children"], w)
                     if r:
@@ -855,15 +906,15 @@ class Prop:
 
         # (b) round trip
         strings_only = all(isinstance(n._data, str) for n in B.all_nodes(root))
-        hyp = (kind == "none" and strings_only) or kind in ("set", "wrap", "new", "extra")
+        hyp = (kind == "none" and strings_only) or kind in ("set", "wrap", "new", "extra", "guid")
 
         def first_refusal(dl):
             """what from_dict has to refuse first, items taken in pre-order: 7 = an item without data_id whose data is
             unhashable (no default id), 1 = an item whose effective id is already taken by an earlier sibling"""
             ids = []
             for d in dl:
-                if d.get("data_id") is not None:
-                    e = d["data_id"]
+                if item_id(kind, d) is not None:
+                    e = item_id(kind, d)
                 else:
                     e = safe_hash(decode_item(kind, d, U))
                     if e == -1:
